@@ -132,6 +132,20 @@ CLAIMS: dict = {
         technique='contract-based deductive verification: symbolic execution of the real functions over uninterpreted graph '
                   'contracts, z3 (reals); bounded stand-in on small digraphs',
         engines=['pyvc', 'bounded']),
+    'C17': dict(
+        category='proof',
+        text='Morphy._morphstr and Morphy.__call__ executed symbolically (z3 strings, branches predicated) for an '
+             'arbitrary word form over the REAL rule table (read from the module, so changed data is not a violation) '
+             'and an arbitrary lexicon inventory given as uninterpreted lemma/exception predicates under the class '
+             'invariant: per rule, soundness and completeness of its application (non-empty stem, output = stem + '
+             'replacement, lemma filter when initialized), the form itself and the exception lemmas, nothing else; '
+             '__call__ pos handling incl. removal of the original from the per-pos sets. Wordnet level = the '
+             '_find_helper contract (C09) for generic lemmatizer proposals.',
+        note='Morphy.__init__ (dict-of-sets accumulation) is a bounded stand-in on enumerated small inventories. z3 '
+             'sequence theory trusted for endswith/slicing/concatenation. Completeness is claimed for the parts of '
+             'speech Morphy handles (n, v, a, s, r).',
+        technique='contract-based deductive verification: AST-level symbolic execution with z3 strings, per-rule obligations',
+        engines=['pyvc', 'bounded']),
     'C18': dict(
         category='proof',
         text='All 18 check functions of wn/validate.py are executed symbolically on an arbitrary lexicon of the loader\'s '
